@@ -326,6 +326,9 @@ func (w *Worker) conn(name string) *grpc.ClientConn {
 	if name == "bd" {
 		return w.bd.CC
 	}
+	if name == "bd2" {
+		return w.bd2.CC
+	}
 	return w.env.conn(name)
 }
 
